@@ -625,7 +625,30 @@ func (c *FnCtx) term(v ssa.Value) string {
 	case *ssa.Builtin:
 		unsupp("builtin %s used as a value", x.Name())
 	}
-	if _, ok := c.addrs[v]; ok {
+	if ad, ok := c.addrs[v]; ok {
+		if fa, isField := v.(*ssa.FieldAddr); isField {
+			// the address of a field escapes as a pointer value (offset, line = &e.Offset, &i.line).
+			// Model: a fresh cell holding a copy of the field's current content; from here on the
+			// field of that object is volatile (every later read of it yields an arbitrary value), so
+			// writes made through the pointer are never contradicted by a stale field value. A direct
+			// write to the field while the pointer is alive is not reflected in the cell (documented).
+			et := fa.Type().(*types.Pointer).Elem()
+			if _, isBasic := types.Unalias(et).Underlying().(*types.Basic); isBasic {
+				root := ad.root()
+				r := c.newRef()
+				hn := heapCell(et)
+				hs := "(Array Int " + c.sorts.sortOf(et) + ")"
+				h := c.heapGet(hn, hs)
+				c.heapSet(hn, hs, sto(h, r, c.load(ad)))
+				if (root.kind == aField || root.kind == aCell) && root.base != "" {
+					c.volatileRefs[root.heap] = append(c.volatileRefs[root.heap], root.base)
+				} else {
+					c.volatile[ad.rootHeap()] = true
+				}
+				c.vals[v] = r
+				return r
+			}
+		}
 		unsupp("address %s used as a value (%T)", v.Name(), v)
 	}
 	unsupp("no term for %s (%T)", v.Name(), v)
